@@ -42,6 +42,7 @@ Init == /\ l = 1 /\ t = [ln |-> 0] /\ exp = <<>> /\ nonce = <<>> /\ lde = 0 /\ r
 \* the statement as instantiated by the harness (Stark.tla, Effective)
 Begin == /\ E.ev = "begin"
          /\ t' = Effective(E.t) /\ exp' = E.expected /\ nonce' = E.nonce /\ lde' = E.lde
+         /\ E.expected[1] = SeedCtx(E.t, E.meta) \o E.pub              \* the seed: the context in its documented layout, then the public inputs
          /\ Len(E.expected) = NumMsgs(E.t)                       \* layer count of the model = commitments in the proof
          /\ E.lde = Lde(E.t)
          /\ E.unique >= 1 /\ E.unique <= E.t.q
